@@ -123,6 +123,26 @@ def triggers(triples, fmt, opts=None):
     return t
 
 
+def weak_key(carve):
+    """weakened comparison: numeric literals hit by a listed Turtle-shorthand finding are compared by value, everything else exactly"""
+    def wk(t):
+        k = lkey(t)
+        if k and k[0] == "l" and k[2] in (XS + "decimal", XS + "double") and isinstance(t, Literal) and t.value is not None:
+            try:
+                return ("num", k[2], float(t.value) if k[2].endswith("double") else str(t.value.normalize()))
+            except Exception:
+                return k
+        return k
+    if "C03-turtle-double-shorthand" not in carve:
+        return wk
+    def key(t):
+        k = wk(t)
+        if k and k[0] == "num" and k[1].endswith("double"):
+            return ("num", k[1], "%.5e" % k[2] if k[2] == k[2] and abs(k[2]) != float("inf") else str(k[2]))
+        return k
+    return key
+
+
 def run_case(case, st=None):
     st = st if st is not None else {}
     fmt = case["fmt"]; pfmt = FORMATS[fmt]
@@ -164,22 +184,7 @@ def run_case(case, st=None):
     st["parsed:" + fmt] = st.get("parsed:" + fmt, 0) + 1
     A = list(triples); Bt = list(g2)
     if carve:
-        # weakened comparison: numeric literals hit by a listed finding are compared by value, everything else exactly
-        def wk(t):
-            k = lkey(t)
-            if k and k[0] == "l" and k[2] in (XS + "decimal", XS + "double") and isinstance(t, Literal) and t.value is not None:
-                try:
-                    return ("num", k[2], float(t.value) if k[2].endswith("double") else str(t.value.normalize()))
-                except Exception:
-                    return k
-            return k
-        key = wk
-        if "C03-turtle-double-shorthand" in carve:
-            def key(t, wk=wk):
-                k = wk(t)
-                if k and k[0] == "num" and k[1].endswith("double"):
-                    return ("num", k[1], "%.5e" % k[2] if k[2] == k[2] and abs(k[2]) != float("inf") else str(k[2]))
-                return k
+        key = weak_key(carve)
     else:
         key = hext_key if fmt == "hext" else lkey
     r = iso(A, Bt, lit_key=key)
